@@ -57,10 +57,11 @@ pub fn f_in_kinds(op: &str, params: &[BigUint]) -> Vec<char> {
     let n = |i: usize| params.get(i).map(|b| b.iter_u64_digits().next().unwrap_or(0) as usize).unwrap_or(0);
     match op {
         "add" | "sub" | "mul" | "div" | "is_equal" | "is_not_equal" | "assert_equal" | "assert_not_equal" | "addsub" | "unnorm_eq"
-        | "unnorm_pub" | "lincomb" | "unnorm_mul" | "unnorm_iszero" => vec!['F', 'F'],
+        | "unnorm_pub" | "lincomb" | "unnorm_mul" | "unnorm_iszero" | "unnorm_subsub" => vec!['F', 'F'],
         "neg" | "inv" | "inv0" | "add_constant" | "mul_by_constant" | "is_zero" | "is_equal_to_fixed" | "to_le_bits" | "to_le_bits_nc"
         | "to_le_bytes" | "assert_non_zero" | "pub" | "assign_pub" | "unnorm_bits" | "square" => vec!['F'],
         "select" => vec!['b', 'F', 'F'],
+        "unnorm_subeq" => vec!['F', 'F', 'F'],
         "from_le_bits" => vec!['b'; n(0)],
         "from_le_bytes" => vec!['B'; n(0)],
         _ => vec![],
@@ -176,6 +177,22 @@ where
                 // and x + y versus y
                 let u = fc.add(l, &fs[0], &fs[1])?;
                 outs.push(Out::B(fc.is_equal(l, &u, &fs[1])?));
+            }
+            "unnorm_subsub" => {
+                // x - (x - y): the subtrahend is itself an un-normalised difference
+                let t = fc.sub(l, &fs[0], &fs[1])?;
+                let u = fc.sub(l, &fs[0], &t)?;
+                outs.push(Out::B(fc.is_equal(l, &u, &fs[1])?));
+                let v = fc.sub(l, &fs[1], &t)?;
+                outs.push(Out::B(fc.is_zero(l, &v)?));
+                outs.push(Out::Fe(u));
+            }
+            "unnorm_subeq" => {
+                let t = fc.sub(l, &fs[1], &fs[2])?;
+                outs.push(Out::B(fc.is_equal(l, &fs[0], &t)?));
+                outs.push(Out::B(fc.is_not_equal(l, &fs[0], &t)?));
+                let d = fc.sub(l, &fs[0], &t)?;
+                outs.push(Out::B(fc.is_zero(l, &d)?));
             }
             "unnorm_iszero" => {
                 let t = fc.sub(l, &fs[0], &fs[1])?;
